@@ -211,6 +211,16 @@ func waitFlushed(db *store.ChainDatabase) bool {
 			continue
 		}
 		if time.Now().After(deadline) {
+			if d := os.Getenv("C09_DEBUG"); d != "" {
+				f, _ := os.OpenFile(filepath.Join(d, fmt.Sprintf("%d.log", os.Getpid())), os.O_CREATE|os.O_APPEND|os.O_WRONLY, 0644)
+				q.IndexRW.RLock()
+				for k := range q.Index {
+					fmt.Fprintf(f, "pending key %s\n", k)
+				}
+				q.IndexRW.RUnlock()
+				fmt.Fprintf(f, "writechan=%d donechan=%d hist=%v\n", len(q.SyncFileDB.WriteChan), len(q.DoneChan), debugHist)
+				f.Close()
+			}
 			return false
 		}
 		time.Sleep(pause)
@@ -993,18 +1003,41 @@ func (c *runCtx) checkViewsGet() (failed bool, prior []string) {
 	return false, nil
 }
 
-func evaluate(hist []string, pure bool) (o core.Outcome) {
+var debugHist []string
+
+// evaluate judges one history. When only the mutating read-everything pass fails, the history is
+// extended by the oracle reads that preceded the failure and judged again (on a fresh instance,
+// after this one is closed) without that pass.
+func evaluate(hist []string, pure bool) core.Outcome {
+	o, ext := evaluateOnce(hist, pure)
+	if ext == nil {
+		return o
+	}
+	o2, _ := evaluateOnce(ext, true)
+	if len(o2.Violations) > 0 {
+		o.Violations = o2.Violations
+	} else {
+		o.Violations = append(o.Violations, core.Violation{Fingerprint: prop + "/view-after-oracle-reads",
+			What:   fmt.Sprintf("a Get in the oracle's read-everything pass returned a wrong value, and the failure does not reproduce with the preceding oracle reads as events: %v [history %v]", ext[len(hist):], hist),
+			Replay: replayT{History: hist, Pure: false}})
+	}
+	o.Key = ""
+	return o
+}
+
+func evaluateOnce(hist []string, pure bool) (o core.Outcome, ext []string) {
+	debugHist = hist
 	if len(hist) == 0 {
 		en := make([]string, 0)
 		for k := range scenarios {
 			en = append(en, k)
 		}
 		sort.Strings(en)
-		return core.Outcome{Key: "root", Enabled: en}
+		return core.Outcome{Key: "root", Enabled: en}, nil
 	}
 	sc := scenarios[hist[0]]
 	if sc == nil {
-		return core.Outcome{}
+		return core.Outcome{}, nil
 	}
 	evs := hist[1:]
 	in := openInstance()
@@ -1012,7 +1045,7 @@ func evaluate(hist []string, pure bool) (o core.Outcome) {
 	defer func() {
 		if p := recover(); p != nil {
 			if p == errInvalidHistory {
-				o = core.Outcome{}
+				o, ext = core.Outcome{}, nil
 				return
 			}
 			in.panicked = true
@@ -1026,38 +1059,31 @@ func evaluate(hist []string, pure bool) (o core.Outcome) {
 	defer func() { since("replay_and_oracle", t0) }()
 	for _, ev := range sc.prefix {
 		if !c.step(ev, false) {
-			return o
+			return o, nil
 		}
 	}
 	for i, ev := range evs {
 		if !c.step(ev, i == len(evs)-1) {
-			return o
+			return o, nil
 		}
 	}
 	c.checkStructure()
 	c.checkPersisted()
 	c.checkViewsPure()
 	if len(o.Violations) > 0 {
-		return o
+		return o, nil
 	}
 	if !pure {
 		if failed, prior := c.checkViewsGet(); failed {
 			// judge the same state with the oracle's own reads made explicit
-			ext := append(append([]string{}, hist...), prior...)
-			o2 := evaluate(ext, true)
-			if len(o2.Violations) > 0 {
-				o.Violations = o2.Violations
-			} else {
-				c.viol("view-after-oracle-reads", fmt.Sprintf("a Get in the oracle's read-everything pass returned a wrong value after the reads %v, and the failure does not reproduce with those reads as events", prior))
-			}
-			return o
+			return o, append(append([]string{}, hist...), prior...)
 		}
 	}
 	o.Key = c.m.key()
 	if len(evs) < sc.depth {
 		o.Enabled = c.m.enabled()
 	}
-	return o
+	return o, nil
 }
 
 // ---------------------------------------------------------------------------------------------
